@@ -217,6 +217,18 @@ Example C10_checker_rejects_ring_history :
                  (map StateExec.tobs_of_obs (run ring_pool NewState ring_script)) = Some (11, 8)%N.
 Proof. vm_compute. reflexivity. Qed.
 
+(* ... and it rejects what the pinned (unrepaired) tree does on the F10 history `0x10, 0x13, 0x50, Open()`:
+   observed there: the third call closes both descriptors and the Open() after it panics *)
+Example C10_checker_rejects_f10_observation :
+  let pool := [ mk 0 0x10 1 true 100 0 0 false 0 0 None; mk 1 0x13 1 true 200 0 0 false 0 0 None;
+                mk 2 0x50 1 true 300 0 0 false 0 0 None ] in
+  Trackers.check pool [Trackers.TProcess 0; Trackers.TProcess 1; Trackers.TProcess 2; Trackers.TOpen]
+    [ Trackers.mkTobs [] 0 (Some [0]); Trackers.mkTobs [] 0 (Some [0]); Trackers.mkTobs [1; 0] 0 None ]%N = Some (2, 1)%N /\
+  map StateExec.tobs_of_obs (run pool NewState [CProcess 0; CProcess 1; CProcess 2; COpen]) =
+    [ Trackers.mkTobs [] 0 (Some [0]); Trackers.mkTobs [] 0 (Some [0]); Trackers.mkTobs [1; 0] 0 (Some [2]);
+      Trackers.mkTobs [] 0 (Some [2]) ]%N.
+Proof. vm_compute. split; reflexivity. Qed.
+
 (* non-vacuity: a history with a breakaway, a descriptor closing through it, a resumption, an explicit
    close and a duplicate satisfies the hypotheses (indices in the pool, writes <= 10) and shows every
    kind of observation *)
